@@ -290,14 +290,18 @@ func (c *c09) run(tape *kernel.Tape) {
 		}
 	}
 	// ---- 3b. the well-formed requests themselves (provider configurations may be degenerate) ----
-	add("wellformed=device_authorization", func() *world.Resp { return w.PostForm("/device_authorization", url.Values{"scope": {"openid"}}, webBasic) })
+	add("wellformed=device_authorization", func() *world.Resp {
+		return w.PostForm("/device_authorization", url.Values{"scope": {"openid"}}, webBasic)
+	})
 	add("wellformed=device_authorization-public", func() *world.Resp {
 		return w.PostForm("/device_authorization", url.Values{"scope": {"openid"}}, world.Creds{Mode: "id-only", ID: "pub"})
 	})
 	add("wellformed=client_credentials", func() *world.Resp {
 		return w.PostForm("/oauth/token", url.Values{"grant_type": {"client_credentials"}, "scope": {"api"}}, webBasic)
 	})
-	add("wellformed=introspect", func() *world.Resp { return w.PostForm("/oauth/introspect", url.Values{"token": {s.tokens.AccessToken}}, webBasic) })
+	add("wellformed=introspect", func() *world.Resp {
+		return w.PostForm("/oauth/introspect", url.Values{"token": {s.tokens.AccessToken}}, webBasic)
+	})
 	add("wellformed=userinfo", func() *world.Resp { return bearerGet(w, "/userinfo", s.tokens.AccessToken) })
 	add("wellformed=exchange-opaque-or-jwt-access", func() *world.Resp {
 		return w.PostForm("/oauth/token", url.Values{"grant_type": {string(oidc.GrantTypeTokenExchange)}, "subject_token": {s.tokens.AccessToken}, "subject_token_type": {string(oidc.AccessTokenType)},
